@@ -124,6 +124,14 @@ def has_fact(body, bb, roles, *alternatives):
     return False
 
 
+def opt_fact(kind, x):
+    """Alternatives for 'x is Some/Ok' ("some") or 'x is None/Err' ("none") on a two-variant enum:
+    `if let`/`match`/`?` leave either a positive or a negative variant fact."""
+    if kind == "some":
+        return [("variant_in", x, (1,)), ("variant_not_in", x, (0,))]
+    return [("variant_in", x, (0,)), ("variant_not_in", x, (1,))]
+
+
 def expect_defs(ctx, rule, body, local, roles, allowed, required, what):
     """Every definition of `local` matches one of the `allowed` patterns {pattern: label}
     (`*` = any sub-expression); every label in `required` occurs. Returns {label: [(bb, idx)]}."""
